@@ -1,5 +1,6 @@
 (** C15: grammar diagnostics are exact and -strict turns them into failure. *)
-From PegV Require Import Base.Tac Spec.Syntax Model.Analyses Model.Cli Generated.CliFacts Proofs.DiagProofs Proofs.CliProofs.
+From PegV Require Import Base.Tac Spec.Syntax Model.Analyses Model.Cli Generated.CliFacts Proofs.DiagProofs Proofs.LeftRec Proofs.CliProofs.
+From Coq Require Import Relations.
 
 (** "used but not defined" names exactly the referenced names that have no definition
     (references from unreachable rules included). *)
@@ -30,13 +31,22 @@ Theorem C15_strict :
 Proof. exact c18_holds. Qed.
 Print Assumptions C15_strict.
 
-(** Left recursion.  Full statement (NOT yet proved; decided by the correspondence run against an
-    independent oracle: least-fixpoint nullability + cycles in the head-position graph):
-    some "possible infinite left recursion" warning is issued iff some rule reaches itself through
-    head positions.  Kept visible here so that it is not silently dropped. *)
-Definition C15_left_recursion_exact_statement : Prop :=
-  forall g (head_cycle : rawg -> nat -> Prop),
-    (leftrec_warnings g <> [] <-> exists r, head_cycle g r).
+(** Left recursion.  [hstep g m k]: the body of rule m can reach a reference to rule k before having
+    consumed anything - through any operator: alternatives, sequences whose earlier elements may
+    succeed without consuming ([nullable], the least fixed point; lookahead, ? and * are transparent),
+    &, !, ?, *, + and captures.  Some "possible infinite left recursion" warning is issued exactly
+    when some rule can come back to itself that way (direct, indirect or behind a nullable prefix). *)
+Theorem C15_left_recursion_exact :
+  forall g, leftrec_warnings g <> [] <-> exists r, clos_trans nat (hstep g) r r.
+Proof. exact leftrec_exact. Qed.
+Print Assumptions C15_left_recursion_exact.
+
+(** non-vacuity of both directions: indirect recursion behind a nullable prefix and under operators is
+    warned; right recursion and recursion behind a consuming element is not *)
+Example C15_leftrec_nonvacuous :
+  leftrec_warnings [(0, ESeq [EQuery (EChar 97%Z); EName 1]); (1, EAlt [EChar 98%Z; EPlus (ENot (EName 0))])] <> [] /\
+  leftrec_warnings [(0, ESeq [EChar 97%Z; EName 0]); (1, EAlt [EChar 98%Z; ESeq [EPlus (EChar 99%Z); EName 1]])] = [].
+Proof. vm_compute. split; [discriminate|reflexivity]. Qed.
 
 Example C15_nonvacuous :
   let g : rawg := [(0, ESeq [EQuery (EName 0); EChar 97%Z; EName 7]); (1, EName 2); (2, EName 1); (1, EDot)] in
